@@ -75,11 +75,16 @@ def make_cases(tier, profile):
     qs = ['LIST', 'LIST #x', 'LIST #x,&y', 'NAMES', 'NAMES #x', 'NAMES #x,&y', 'WHO #x', 'WHO *', 'WHO bob', 'WHO b*', 'WHOIS bob', 'WHOIS bob,carol', 'WHOIS b*']
     if tier != 'quick': qs += ['WHO *o*', 'WHOIS *', 'NAMES &y,#x', 'LIST &y', 'WHO carol', 'WHO ?ob']
     from mirsym.world import RANKS
-    quick_fix = {f'{r}_{n}_#x': False for n in ('alice', 'carol') for r in RANKS} if tier == 'quick' else {}
-    quick_fix.update({f'{r}_{n}_&y': False for n in ('alice', 'bob', 'carol') for r in RANKS} if tier == 'quick' else {})
+    if tier == 'quick':
+        quick_fix = {f'{r}_{n}_#x': False for n in ('alice', 'carol') for r in RANKS}
+        quick_fix.update({f'{r}_{n}_&y': False for n in ('alice', 'bob', 'carol') for r in RANKS})
+    else:
+        # thorough: all five ranks of bob on #x, operator/voice of carol on #x and of bob on &y, operator of alice are symbolic; the remaining rank flags are off
+        keep = {('bob', '#x', r) for r in RANKS} | {('carol', '#x', 'operator'), ('carol', '#x', 'voice'), ('bob', '&y', 'operator'), ('bob', '&y', 'voice'), ('alice', '#x', 'operator'), ('alice', '&y', 'operator')}
+        quick_fix = {f'{r}_{n}_{c}': False for n in ('alice', 'bob', 'carol') for c in ('#x', '&y') for r in RANKS if (n, c, r) not in keep}
     for q in qs:
         cases.append(dict(name=q + ' [secret #x]', line=q, call='product', judges=['no_panic', 'indistinguishable'], hide=hide_x, what='the secret channel #x',
-                          spec=dict(base, sym_modes=False), partial0=dict(p_secret, **quick_fix), split=['mem_bob_#x', 'mem_carol_#x', 'exists_&y']))
+                          spec=dict(base, sym_modes=False), partial0=dict(p_secret, **quick_fix), split=['mem_bob_#x', 'mem_carol_#x', 'exists_&y'] + ([] if tier == 'quick' else ['mem_bob_&y', 'founder_bob_#x'])))
     # an invisible user sharing no channel with the observer
     hide_bob = {'reg_bob': False, 'mem_bob_#x': False, 'mem_bob_&y': False}
     p_inv = {'umode_invisible_bob': True, 'reg_bob': True}
@@ -88,10 +93,10 @@ def make_cases(tier, profile):
     for q in qi:
         cases.append(dict(name=q + ' [invisible bob]', line=q, call='product', judges=['no_panic', 'indistinguishable'], hide=hide_bob, what='the invisible user bob',
                           disjoint=[('alice', 'bob')], spec=dict(base, sym_modes=True, sym_users=True, sym_flags=True),
-                          partial0=dict(p_inv, **fix_modes, **quick_fix, **{'preconf_#x': True, 'preconf_&y': True}), split=['mem_bob_#x', 'mem_alice_#x', 'mem_carol_#x']))
+                          partial0=dict(p_inv, **fix_modes, **quick_fix, **{'preconf_#x': True, 'preconf_&y': True}), split=['mem_bob_#x', 'mem_alice_#x', 'mem_carol_#x'] + ([] if tier == 'quick' else ['mem_bob_&y', 'founder_bob_#x'])))
     return cases
 
-BOUNDS = dict(universe='3 users, 2 channels; hidden part = the secret channel #x (its existence, members, ranks, topic, other flags symbolic) resp. the +i user bob (its memberships, ranks symbolic) sharing no channel with the observer',
+BOUNDS = dict(universe='3 users, 2 channels (quick: ranks of bob on #x only; thorough: all ranks of bob on #x, operator/voice of carol on #x and bob on &y, operator of alice); hidden part = the secret channel #x (its existence, members, ranks, topic, other flags symbolic) resp. the +i user bob (its memberships, ranks symbolic) sharing no channel with the observer',
               queries='LIST, NAMES, WHO, WHOIS: no argument, explicit names incl. the hidden one, comma lists, wildcard masks',
               outside='PRIVMSG/JOIN/TOPIC/MODE answers (the statement restricts indistinguishability to the four queries; C10 proves "cannot speak into it"); LIST member counts for invisible users; worlds in which removing the invisible user would empty a non-preconfigured channel (channels are preconfigured in those cases)')
 
